@@ -519,7 +519,17 @@ static void scopes(Ctx& c, unsigned depth, unsigned maxDepth)
    const bool withAttr = r.chance(5, 6);
    const bool viaMacro = r.chance(1, 2);
    const std::string name = ATTR_NAMES[r.below(4)];
-   const std::string value = "scoped" + std::to_string(++c.valueNo) + "@" + std::to_string(depth + 1);
+   std::string value = "scoped" + std::to_string(++c.valueNo) + "@" + std::to_string(depth + 1);
+   {
+      // sometimes the scope re-defines the attribute with the value that is visible anyway (outer scope or global): at the end
+      // of the scope exactly this definition goes away again, the outer one stays
+      std::string visible;
+      if (r.chance(1, 4) && attr_find(c.global, name, visible) && !visible.empty())
+      {
+         value = visible;
+         out.stat("scoped_attributes_with_the_visible_value");
+      }
+   }
    auto body = [&]() {
       // a second scoped attribute in the same scope, sometimes with the same name
       std::unique_ptr<cld::ScopedAttribute> sb;
